@@ -1373,6 +1373,8 @@ int QSexact_verify (
                   rval = mpq_QSget_objval(p_mpq, dobjval);
                   if( rval )
                      *result = 0;
+                  else if( p_mpq->qslp->objsense == QS_MAX )
+                     mpq_neg(*dobjval, *dobjval); /* same sign as QSexact_basis_dualstatus: internal minimisation form */
                }         
             }
             if( !msg_lvl )
@@ -1426,6 +1428,8 @@ int QSexact_verify (
                rval = mpq_QSget_objval(p_mpq, dobjval);
                if( rval )
                   *result = 0;
+               else if( p_mpq->qslp->objsense == QS_MAX )
+                  mpq_neg(*dobjval, *dobjval); /* same sign as QSexact_basis_dualstatus: internal minimisation form */
             }         
          }
          if( !msg_lvl )
